@@ -278,6 +278,9 @@ def reference(hist):
             out.append(ref_line(l, penv))
         elif t[0] == "killtest":
             out.append("kill ok=1 | running=1 killed=1 after=0")
+        elif t[0] == "fds":
+            # no descriptor is left behind: only the pipe ends the Process object currently holds are open
+            out.append(f"fds | open={sum(1 for x in st[1:4] if x)}")
         else:
             out.append(ref_line(l))
     return out
@@ -403,7 +406,7 @@ def proc_histories(rng, quick):
                      else f"p close {rng.randrange(8)}" if k < 0.85 else f"p read3 {rng.randrange(8)}" if k < 0.95 else f"p start {rng.randrange(256)}")
         hs.append(h)
     hs.append([f"killtest {m}" for m in range(4)])
-    return hs
+    return [h + ["p new", "fds"] for h in hs]
 
 
 ENV_NAMES = [b"NVT_A", b"NVT_A1", b"NVT_B", b"NVT_", b"NVT_long_name_0123456789"]
@@ -498,7 +501,7 @@ def histories_for(ctx):
     rl, il, xl = run_lines(rng, quick), io_lines(rng, quick), exit_lines(rng, quick)
     ph = proc_histories(rng, quick)
     eh = env_histories(rng, quick)
-    hs = corpus + ph + eh + chunks(ea, 40) + chunks(ra, 40) + chunks(es + es2, 40) + chunks(rs, 40) + chunks(rl, 8) + chunks(il, 3) + chunks(xl, 8)
+    hs = corpus + ph + eh + chunks(ea, 40) + chunks(ra, 40) + chunks(es + es2, 40) + chunks(rs, 40) + [c + ["fds"] for c in chunks(rl, 8) + chunks(il, 3) + chunks(xl, 8)]
     ctx.cov["rule"] = (
         f"corpus ({len(corpus)}) + args: every argv of <= {AMAX[quick]} words over {len(WORDS)} words "
         f"({', '.join(w.decode() for w in WORDS)}) with the option table a/alpha=flag, b=flag without long name, o/out=required value, "
@@ -508,7 +511,7 @@ def histories_for(ctx):
         f"({len(es)}){'' if quick else f' and <= 6 symbols over a, b, blank, quote, backslash ({len(es2)})'} + {len(rs)} random lines, 20 s watchdog; "
         f"run: {len(rl)} launches of the helper child through every start/open form x redirection mask x environment (empty=inherit, 1..3 variables) "
         f"with argv/environment echoed back; io: redirection masks 0..7 x payload sizes {SIZES} ({len(il)} runs, stdin payload written and "
-        f"stdout/stderr read to end-of-file, CRC-32 compared); exit: {len(xl)} exit codes through start(command)+join; Process object: every sequence of <= {3 if quick else 4} calls over {len(POPS)} calls (start, open with masks 0/1/7, join, kill, close, isRunning, read with stream selection, destructor) + random sequences ({len(ph)} histories; pid/descriptor bookkeeping, results, EINVAL), a child blocked on its stdin is killed (4 masks); environment: {len(eh)} random histories of setEnvironmentVariable/getEnvironmentVariable/getEnvironmentVariables mixed with launches that inherit the environment. "
+        f"stdout/stderr read to end-of-file, CRC-32 compared); exit: {len(xl)} exit codes through start(command)+join; Process object: every sequence of <= {3 if quick else 4} calls over {len(POPS)} calls (start, open with masks 0/1/7, join, kill, close, isRunning, read with stream selection, destructor) + random sequences ({len(ph)} histories; pid/descriptor bookkeeping, results, EINVAL; every history ends with a count of leaked descriptors), a child blocked on its stdin is killed (4 masks); environment: {len(eh)} random histories of setEnvironmentVariable/getEnvironmentVariable/getEnvironmentVariables mixed with launches that inherit the environment. "
         "distinct_nontrivial = distinct observation lines with >= 2 results / >= 2 words / a child run")
     ctx.cov["open_statements"] = [
         "run-time delivery (the child observes argv/environ as given, join returns its exit code, redirected bytes arrive intact up to "
